@@ -12,7 +12,7 @@ REQUIRED_THEOREMS = ["faces_in_bijection", "ref_vertex_face_by_face", "ref_verte
                      "stable_roots", "prune_keeps_singular_core", "prune_subset", "prune_keeps_loops", "faces_nested",
                      "prune_queue_empty", "prune_fixpoint", "prune_fixpoint_run", "vertex_count", "twin_sides_shared",
                      "edge_count_partial", "euler_characteristic_partial", "euler_formula_partial", "euler_iff_vertex_count",
-                     "euler_formula_of_report"]
+                     "euler_formula_of_report", "all_unions_effective_of_dual_forest", "euler_characteristic_of_dual_tree_partial"]
 TRUSTED = [
     "Lean 4.33.0 kernel; axioms ⊆ {propext, Classical.choice, Quot.sound}",
     "hand-written model Mouette/Model/Cutting.lean (_build_cut_edges_tree, _prune_edge_tree, _build_mesh_with_cuts over the C20 "
@@ -25,7 +25,7 @@ ASSUMPTIONS = ["agreement model/implementation and the disk property are establi
 RULE = ("connected oriented triangulated surfaces (sphere, tetrahedron, tori, genus 2, grids, Delaunay disks, annuli; holes punched → "
         "0-3+ border loops; regular variants with many equal edge lengths) × singularity sets (empty, one, few, many, border-only, "
         "mixed) × features (none, real FeatureEdgeDetector, detector with an imposed interior feature set); plus regular grids with one "
-        "removed triangle and every singular pair next to the hole (thorough: all 2512, quick: 150 sampled); non-trivial = in-domain "
+        "removed triangle and every singular pair next to the hole (thorough: all 2512 + 1256 two-cutter histories, quick: 200 sampled + all 1256 histories); non-trivial = in-domain "
         "case whose run succeeded and cut at least one interior edge")
 
 
@@ -74,21 +74,57 @@ def _make_features(case, mesh):
     return det
 
 
+REPS = ("list", "tuple", "set", "ndarray", "ndarray32", "npints", "attribute")
+HISTS = ("none", "rerun", "second", "graph-first", "out-first", "detector-twice", "interleave")
+
+
+def _make_sing(rep, sing, mesh):
+    """the singularity set in the representation `rep` (all are accepted by the constructor: list, any iterable, ndarray,
+    or a vertex attribute whose keys are the singular vertices as FrameField integration passes it)"""
+    import numpy as np
+    if rep == "tuple": return tuple(sing)
+    if rep == "set": return set(sing)
+    if rep == "ndarray": return np.array(sing, dtype=np.int64)
+    if rep == "ndarray32": return np.array(sing, dtype=np.int32)
+    if rep == "npints": return [np.int64(x) for x in sing]
+    if rep == "attribute":
+        a = mesh.vertices.create_attribute("singuls", int)
+        for i, x in enumerate(sing): a[x] = 1 if i % 2 == 0 else -1
+        return a
+    return list(sing)
+
+
+def _snapshot(cutter, nV):
+    return (sorted(int(e) for e in cutter.cut_edges), [sorted(int(x) for x in cutter.cut_adj[v]) for v in range(nV)])
+
+
 def _run(case):
     k = _key(case)
     if k in _CACHE:
         return _CACHE[k]
     import mouette as M
-    rec = {"err_run": None, "err_out": None, "err_graph": None}
+    rec = {"err_run": None, "err_out": None, "err_graph": None, "hist_findings": []}
+    rep, hist = case.get("rep", "list"), case.get("hist", "none")
     mesh = G.build_surface(case)
     rec["E"] = [(int(a), int(b)) for a, b in mesh.edges]
     rec["interior"] = [int(e) for e in mesh.interior_edges]
     rec["border_e"] = sorted(int(e) for e in mesh.boundary_edges)
     rec["nV"] = len(mesh.vertices)
+    nV = rec["nV"]
     ev = []
+
+    def hf(key, what, detail=""):
+        rec["hist_findings"].append((key, what, str(detail)[:300]))
     try:
         feat = _make_features(case, mesh)
-        cutter = M.processing.SingularityCutter(mesh, list(case["sing"]), features=feat, verbose=False)
+        if hist == "detector-twice" and case.get("feat") and case["feat"]["mode"] == "detector":
+            feat.run(mesh)      # the mesh already carries the `feature` attributes of a previous detection
+        if hist == "second":
+            # a first cutter (other singularities, same features) has already worked on this mesh object
+            first = M.processing.SingularityCutter(mesh, list(case.get("hist_sing", [])), features=feat, verbose=False)
+            first.run(); first.output_mesh
+        sing_obj = _make_sing(rep, case["sing"], mesh)
+        cutter = M.processing.SingularityCutter(mesh, sing_obj, features=feat, verbose=False)
         rec["has_features"] = bool(cutter.has_features)
         orig = cutter._build_cut_edges_tree
 
@@ -96,19 +132,39 @@ def _run(case):
             ev.append(sorted(int(e) for e in evisited))
             return orig(evisited)
         cutter._build_cut_edges_tree = wrapped
+        if hist == "interleave":
+            # another cutter works on a DIFFERENT mesh between construction and run of the one under test
+            V2, F2 = CG.regular_grid_tri(4, 5, 2)
+            om = G.build_surface({"V": V2, "F": F2})
+            oc = M.processing.SingularityCutter(om, [6, 13], verbose=False); oc.run(); oc.output_mesh; oc.cut_graph
         cutter.run()
-        rec["evisited"] = ev[0]
-        rec["cut"] = sorted(int(e) for e in cutter.cut_edges)
-        rec["adj"] = [sorted(int(x) for x in cutter.cut_adj[v]) for v in range(rec["nV"])]
+        snap0 = _snapshot(cutter, nV)
+        if hist == "rerun":
+            cutter.run()
+            if _snapshot(cutter, nV) != snap0:
+                hf("history/rerun/cut-differs", "a second run() of the same cutter gives another cut than the first")
+            snap0 = _snapshot(cutter, nV)
+        rec["evisited"] = ev[-1]
+        if hist == "graph-first":
+            cutter.cut_graph
+        if hist == "out-first":
+            cutter.output_mesh; cutter.cut_graph
+        if _snapshot(cutter, nV) != snap0:
+            hf(f"history/{hist}/cut_edges-changed-by-accessor", "reading cut_graph / output_mesh changed cut_edges or cut_adj")
+        if rep in ("list", "npints") and [int(x) for x in sing_obj] != [int(x) for x in case["sing"]]:
+            hf("input/singularities-mutated", "the caller's singularity list was modified")
     except Exception as e:  # noqa
         rec["err_run"] = _errname(e); rec["err_run_msg"] = repr(e)[:200]
-        if ev: rec["evisited"] = ev[0]
+        if ev: rec["evisited"] = ev[-1]
     if rec["err_run"] is None:
         try:
             out = cutter.output_mesh
             rec["outF"] = [[int(v) for v in f] for f in out.faces]
             rec["outV"] = [tuple(float(c) for c in p) for p in out.vertices]
             rec["ref"] = {int(k2): int(v) for k2, v in cutter.ref_vertex.items()}
+            out2 = cutter.output_mesh
+            if [[int(v) for v in f] for f in out2.faces] != rec["outF"]:
+                hf("history/output_mesh/second-read-differs", "a second read of output_mesh gives other faces")
         except Exception as e:  # noqa
             rec["err_out"] = _errname(e); rec["err_out_msg"] = repr(e)[:200]
         try:
@@ -117,6 +173,13 @@ def _run(case):
             rec["graphV"] = [tuple(float(c) for c in p) for p in cg.vertices]
         except Exception as e:  # noqa
             rec["err_graph"] = _errname(e); rec["err_graph_msg"] = repr(e)[:200]
+        # the values the property is checked on are read LAST (after every accessor); by value
+        rec["cut"], rec["adj"] = _snapshot(cutter, nV)
+        if (rec["cut"], rec["adj"]) != snap0:
+            hf(f"history/{hist}/cut_edges-changed-by-accessor", "reading cut_graph / output_mesh changed cut_edges or cut_adj")
+        if [[int(v) for v in f] for f in mesh.faces] != [list(f) for f in case["F"]] or \
+                [tuple(float(c) for c in p) for p in mesh.vertices] != [tuple(float(c) for c in p) for p in case["V"]]:
+            hf("input/mesh-mutated", "the input mesh (vertices or faces) was modified by the cutter")
     if len(_CACHE) > 64:
         _CACHE.clear()
     _CACHE[k] = rec
@@ -227,7 +290,10 @@ def _kind(case):
     genus = (2 - st["chi"] - st["loops"]) // 2
     feat = case.get("feat")
     fm = "nofeat" if not feat else feat["mode"]
-    return st, f"g{genus}/b{min(st['loops'], 3)}{'+' if st['loops'] > 3 else ''}/{fm}"
+    extra = ""
+    if case.get("rep", "list") != "list": extra += "/rep:" + case["rep"]
+    if case.get("hist", "none") != "none": extra += "/hist:" + case["hist"]
+    return st, f"g{genus}/b{min(st['loops'], 3)}{'+' if st['loops'] > 3 else ''}/{fm}{extra}"
 
 
 def oracle(case):
@@ -249,6 +315,8 @@ def oracle(case):
     if rec["err_out"]:
         bad(f"output_mesh/raises/{rec['err_out']}/{kind}", f"output_mesh raised {rec['err_out']}", rec.get("err_out_msg"))
         return out
+    for (hk, hw, hd) in rec["hist_findings"]:
+        bad(hk, hw, hd)
     sphere_uncut = (st["chi"] == 2 and st["loops"] == 0 and len(sing) < 2)
     outF, outV, ref, cut, E = rec["outF"], rec["outV"], rec["ref"], set(rec["cut"]), rec["E"]
     # 1. same faces, same order, same corner positions
@@ -364,7 +432,8 @@ def classify(case, obs):
         ks.append("domain:outside(" + case.get("tag", "?") + ")")
     else:
         st, kind = _kind(case)
-        ks += ["kind:" + kind, "sing:" + case.get("sk", "?"), "fam:" + case.get("tag", "?").split("+")[0]]
+        ks += ["kind:" + kind.split("/rep:")[0].split("/hist:")[0], "sing:" + case.get("sk", "?"), "fam:" + case.get("tag", "?").split("+")[0]]
+        ks += ["rep:" + case.get("rep", "list"), "hist:" + case.get("hist", "none")]
         n = len(case["F"])
         ks.append("faces:" + ("<=20" if n <= 20 else "<=60" if n <= 60 else "<=200" if n <= 200 else ">200"))
         rec = _run(case)
@@ -378,7 +447,7 @@ def classify(case, obs):
 
 def describe(case):
     return {"tag": case.get("tag"), "sk": case.get("sk"), "nV": len(case["V"]), "nF": len(case["F"]), "sing": case["sing"],
-            "feat": (case.get("feat") or {}).get("mode")}
+            "feat": (case.get("feat") or {}).get("mode"), "rep": case.get("rep", "list"), "hist": case.get("hist", "none")}
 
 
 def _with_features(rng, base, F):
@@ -393,7 +462,7 @@ def _with_features(rng, base, F):
 
 
 def cases(rng, tier):
-    n_surf, maxf = (160, 60) if tier == "quick" else (1200, 400)
+    n_surf, maxf = (130, 60) if tier == "quick" else (1200, 400)
     for _ in range(n_surf):
         s = CG.connected_tri_surface(rng, rng.choice([12, 30, maxf]))
         for sk, sing in CG.singularity_sets(rng, len(s["V"]), s["F"]):
@@ -401,8 +470,24 @@ def cases(rng, tier):
             yield {"V": s["V"], "F": s["F"], "sing": sing, "feat": None, "tag": s["tag"], "sk": sk}
             if feat:
                 yield {"V": s["V"], "F": s["F"], "sing": sing, "feat": feat, "tag": s["tag"], "sk": sk}
+    # representations of the singularity set and histories on one mesh / one cutter (Part A of round 3)
+    for _ in range(60 if tier == "quick" else 500):
+        s = CG.connected_tri_surface(rng, rng.choice([12, 30, maxf]))
+        sets = CG.singularity_sets(rng, len(s["V"]), s["F"])
+        sk, sing = rng.choice(sets)
+        feat = _with_features(rng, s, s["F"])
+        base = {"V": s["V"], "F": s["F"], "sing": sing, "feat": feat, "tag": s["tag"], "sk": sk}
+        yield dict(base, rep=rng.choice(REPS[1:]))
+        hist = rng.choice(HISTS[1:])
+        c = dict(base, hist=hist)
+        if hist == "second":
+            c["hist_sing"] = rng.choice(sets)[1]
+        if hist == "detector-twice":
+            c["feat"] = {"mode": "detector"}
+        yield c
+        yield dict(base, rep=rng.choice(REPS[1:]), hist=rng.choice(["rerun", "graph-first", "out-first"]))
     # structured family: singular pairs next to a hole of a regular grid (crossing shortest paths of equal length)
-    for c in CG.pairs_at_hole(rng, 150 if tier == "quick" else 10 ** 6):
+    for c in CG.pairs_at_hole(rng, 200 if tier == "quick" else 10 ** 6):
         yield c
     # outside the statement (polygon faces): model fidelity on the error / index-vs-element paths, no oracle
     for _ in range(6 if tier == "quick" else 40):
@@ -454,8 +539,11 @@ MANIFEST = {
                    "of the output (twin_sides_shared); IF sides of the output coincide only when glued and no corner starts two glued sides "
                    "(explicit hypotheses sep/hR/hdisj) THEN E' = 3F - |uncut| (edge_count_partial) and chi = F + |uncut| - effective unions "
                    "(euler_formula_partial); with |uncut| = F-1, chi = 1 is EQUIVALENT to 'all 2|uncut| corner unions are effective', i.e. "
-                   "V' = F+2 (euler_iff_vertex_count, euler_characteristic_partial) - that last implication from the dual spanning tree is "
-                   "not formalised. NOT proved - checked on every run by the oracle with an independent routine "
+                   "V' = F+2 (euler_iff_vertex_count, euler_characteristic_partial), and that is PROVED from a dual forest/spanning tree of "
+                   "the uncut edges (all_unions_effective_of_dual_forest, euler_characteristic_of_dual_tree_partial); the edge hypotheses "
+                   "stay (decided per run by the driver). The property is also checked on histories (cutter run twice, a second cutter on a "
+                   "used mesh, accessors in every order, detector run twice) and on every representation of the singularity set (list, "
+                   "tuple, set, int64/int32 ndarray, numpy scalars, vertex attribute), with by-value snapshots. NOT proved - checked on every run by the oracle with an independent routine "
                    "(surface_stats): the cut mesh is ONE component with ONE border loop and Euler characteristic 1 (tree-cotree theorem), "
                    "every singular vertex has a copy on that border, the cut graph is connected, the closed sphere with < 2 singularities "
                    "is left uncut. The stages before the cut graph (shortest paths, Kruskal on paths, dual Dijkstra, feature forest) are "
